@@ -3,7 +3,8 @@ EXTENDS Clock, TLC, Json
 CONSTANTS MaxLen, MaxV
 VARIABLES ops, k, seen    \* operations so far, clock state, largest value witnessed or issued
 
-Ops == {[op |-> "inc", v |-> 0], [op |-> "reload", v |-> 0]} \cup {[op |-> "witness", v |-> v] : v \in 0..MaxV}
+Ops == {[op |-> "inc", v |-> 0], [op |-> "reload", v |-> 0], [op |-> "incfail", v |-> 0], [op |-> "witfail", v |-> MaxV]}
+       \cup {[op |-> "witness", v |-> v] : v \in 0..MaxV}
 
 Init == ops = <<>> /\ k = Start /\ seen = 1
 Next == \E o \in Ops :
@@ -13,9 +14,11 @@ Next == \E o \in Ops :
   /\ seen' = IF o.op = "witness" /\ o.v > seen THEN o.v ELSE IF o.op = "inc" /\ k'.mem > seen THEN k'.mem ELSE seen
 Spec == Init /\ [][Next]_<<ops, k, seen>>
 
-Monotone == [][k'.mem >= k.mem /\ k'.disk >= k.disk]_<<ops, k, seen>>
+(* the file never goes back; the object in memory only when it is loaded again after a write that failed (and reported it): never
+   below anything issued or witnessed with success *)
+Monotone == [][k'.disk >= k.disk /\ (k'.mem >= k.mem \/ (ops'[Len(ops')].op = "reload" /\ k'.mem >= seen))]_<<ops, k, seen>>
 MemGeDisk == k.mem >= k.disk
-DominatesSeen == k.mem >= seen /\ k.disk >= seen     \* also after a reload: nothing issued or witnessed is forgotten
+DominatesSeen == k.mem >= seen /\ k.disk >= seen     \* seen: issued or witnessed by calls that reported success     \* also after a reload: nothing issued or witnessed is forgotten
 IncStrict == [][(ops' # ops /\ ops'[Len(ops')].op = "inc") => k'.ret > seen]_<<ops, k, seen>>
 
 Emit == PrintT(ToJson([ops |-> ops, exp |-> Run(Start, ops)]))
